@@ -122,7 +122,10 @@ def run(rep, tier, seed, replay):
             rep.violation(text, case=case, model=m, impl=o, theorem="property oracle C20 fetcher (magnet_completes_only_verified, ext ids of requests)", klass=kl)
         if G.single_provider(case):
             fsingle += 1
-            if G.fetch_compare_prefix(case, m) != G.fetch_compare_prefix(case, o) and not viol:
+            kcut = G.fetch_cut(case, m)
+            mc = " ; ".join(x.replace(" !hashfail", "") for x in m.split(" ; ")[:kcut])
+            oc = " ; ".join(o.split(" ; ")[:kcut])
+            if mc != oc and not viol:
                 fmism += 1
                 mism += 1
                 rep.violation("correspondence broken (fetcher, single provider): model and implementation differ on this input (property oracle holds on it)",
